@@ -43,8 +43,12 @@ class RefBase:
             self.nodes[n] = {} if meta is None else meta
         elif meta is not None and meta != {}:
             # docstring: "already in the hypergraph, nothing happens"; the code fills in
-            # metadata when the stored one is empty.  Both accepted.
-            self.nodes[n] = Alt([self.nodes[n], meta])
+            # metadata when the stored record is EMPTY.  Both accepted -- but a non-empty
+            # record is never replaced by a re-insertion.
+            cur = self.nodes[n]
+            alts = list(cur.values) if isinstance(cur, Alt) else [cur]
+            if any(a == {} for a in alts):
+                self.nodes[n] = Alt(alts + [meta])
         return True
 
     def valid_key(self, key):
